@@ -961,3 +961,26 @@ Proof.
     + apply nth_In. rewrite (wf_lvals _ W). auto.
     + rewrite Hn. reflexivity.
 Qed.
+
+(* every intermediate state of a history (what the correspondence check observes) *)
+Theorem trace_wf ops : forall s, wf s ->
+  Forall (fun r => wf (snd r) /\ frame s (snd r)) (trace VXR s ops).
+Proof.
+  induction ops as [|op ops IH]; intros s W; simpl; constructor.
+  - simpl. split; [apply step_wf | apply step_frame]; auto.
+  - specialize (IH (fst (step VXR s op)) (step_wf s op W)).
+    eapply Forall_impl; [|exact IH]. intros r [Wr Fr]. split; auto.
+    eapply frame_trans; [apply step_frame; auto|exact Fr].
+Qed.
+
+Lemma last_cons_indep {A} (l : list A) x d d' : last (x :: l) d = last (x :: l) d'.
+Proof. revert x. induction l as [|y l IH]; intros x; simpl; auto. apply (IH y). Qed.
+
+(* the last state of the trace is the state [run] returns *)
+Lemma trace_last {T} (V : VOps T) ops : forall s,
+  run V s ops = last (map snd (trace V s ops)) s.
+Proof.
+  unfold run. induction ops as [|op ops IH]; intros s; simpl; auto.
+  rewrite IH. destruct (map snd (trace V (fst (step V s op)) ops)) eqn:E; auto.
+  apply last_cons_indep.
+Qed.
